@@ -261,4 +261,57 @@ theorem rowsColumns_width (s : RowsState) (hG : ColsInGrid s.toks) :
       · exact columnsScan_width _ s.seek s.toks _ true 0 0 hG (by omega) (by omega) (by omega)
   omega
 
+/-! ## tokens from the raw attribute texts -/
+
+/-- a `<c>` element as `rowXMLHandler` sees it, from the raw text of its `r` attribute: no reference → the
+running column; `CellNameToCoordinates` fails → error; otherwise the parsed column (`refOf` is C20's model) -/
+def cellTok (s : List Char) (val : Bool) : Tok :=
+  match refOf s with
+  | .orig (some (c, _)) => .cell (some c) false val
+  | .orig none => .cell none true val
+  | _ => .cell none false val
+
+/-- what the XML decoder delivers, with the `r` text of each cell undecoded -/
+inductive RawTok where
+  | row (r : Int)
+  | cell (s : List Char) (val : Bool)
+  | endData
+  | other
+
+def RawTok.tok : RawTok → Tok
+  | .row r => .row r
+  | .cell s v => cellTok s v
+  | .endData => .endData
+  | .other => .other
+
+def toksOf (raw : List RawTok) : List Tok := raw.map RawTok.tok
+
+theorem toksOf_length (raw : List RawTok) : (toksOf raw).length = raw.length := by
+  simp [toksOf]
+
+/-- a parsed column in the token stream is the column of an accepted reference text -/
+theorem toksOf_col (raw : List RawTok) (c : Int) (b v : Bool) (h : Tok.cell (some c) b v ∈ toksOf raw) :
+    ∃ s rw, Ref.cellNameToCoordinates s = .ok (c, rw) := by
+  simp only [toksOf, List.mem_map] at h
+  obtain ⟨x, _, hx⟩ := h
+  cases x with
+  | row r => simp [RawTok.tok] at hx
+  | endData => simp [RawTok.tok] at hx
+  | other => simp [RawTok.tok] at hx
+  | cell s val =>
+    simp only [RawTok.tok, cellTok] at hx
+    split at hx
+    · rename_i c' r' heq
+      simp only [Tok.cell.injEq, Option.some.injEq] at hx
+      simp only [refOf] at heq
+      split at heq
+      · cases heq
+      · split at heq
+        · rename_i p hp
+          simp only [R.orig.injEq, Option.some.injEq] at heq
+          exact ⟨s, r', by rw [hp, heq, hx.1]⟩
+        · simp at heq
+    · simp at hx
+    · simp at hx
+
 end XlModel.Decode
